@@ -16,9 +16,12 @@ type universe struct {
 	nIds    int  // ids 1..nIds exist in the universe; nIds+1 is never inserted (dangling)
 	chain   bool // chain universe: deterministic activation order, failing responders allowed
 	hasFail bool
+	// reuse: the case re-inserts the same *Symbol objects (a node closed by an earlier removal is
+	// inserted again); no lifecycle ports, because a closed node no longer answers packets
+	reuse bool
 }
 
-func pickPorts(r *lib.RNG, kind int, n int) []int {
+func pickPorts(r *lib.RNG, kind int, n int, lifecycle bool) []int {
 	var pool []int
 	switch kind {
 	case kOneToOne:
@@ -27,6 +30,15 @@ func pickPorts(r *lib.RNG, kind int, n int) []int {
 		pool = []int{pOut0, pOut0, pOut1, pOut1, pX, pInit, pBegin, pTerm, pFinal}
 	default:
 		pool = []int{pOut, pOut, pX, pInit, pTerm}
+	}
+	if !lifecycle {
+		var q []int
+		for _, p := range pool {
+			if p > pFinal {
+				q = append(q, p)
+			}
+		}
+		pool = q
 	}
 	seen := map[int]bool{}
 	var out []int
@@ -40,8 +52,8 @@ func pickPorts(r *lib.RNG, kind int, n int) []int {
 	return out
 }
 
-func genGeneral(r *lib.RNG, c *lib.Ctx, flavour int) *universe {
-	u := &universe{nIds: r.Range(2, 5)}
+func genGeneral(r *lib.RNG, c *lib.Ctx, flavour int, reuse bool) *universe {
+	u := &universe{nIds: r.Range(2, 5), reuse: reuse}
 	nDefs := r.Range(u.nIds, 7)
 	for i := 0; i < nDefs; i++ {
 		d := &SymDef{ID: i%u.nIds + 1}
@@ -56,7 +68,7 @@ func genGeneral(r *lib.RNG, c *lib.Ctx, flavour int) *universe {
 		if flavour == 1 && np == 0 { // C07 flavour: more references (shared targets, cycles)
 			np = 1
 		}
-		for _, p := range pickPorts(r, d.Kind, np) {
+		for _, p := range pickPorts(r, d.Kind, np, !u.reuse) {
 			pd := PortDef{Port: p}
 			nr := 1 + r.Weighted([]int{6, 3, 1})
 			for j := 0; j < nr; j++ {
@@ -210,6 +222,7 @@ func (rn *runner) fail(prop, class, what string) {
 func (rn *runner) do(line string) {
 	w := rn.w
 	before := copyCur(w.cur)
+	balBefore := w.balances()
 	ret, evs, blocked := w.apply(line)
 	if blocked {
 		rn.res.blocked = true
@@ -251,7 +264,7 @@ func (rn *runner) do(line string) {
 		rn.oracleC06(line, links)
 		rn.oracleC07(line, strings.HasPrefix(line, "close"))
 	}
-	rn.oracleC08(line, ret, evs, before, after)
+	rn.oracleC08(line, ret, evs, before, after, balBefore)
 }
 
 func (rn *runner) oracleC06(line string, links []string) {
@@ -355,7 +368,7 @@ func codes(cs []int) string {
 	return "err:" + strings.Join(s, "+")
 }
 
-func (rn *runner) oracleC08(line, ret string, evs []ev, before, after map[int]*live) {
+func (rn *runner) oracleC08(line, ret string, evs []ev, before, after map[int]*live, balBefore map[int]int) {
 	// lifecycle order and error abort, block by block ('C' events are not part of C08)
 	es := evs
 	var bs [][]string
@@ -489,6 +502,39 @@ func (rn *runner) oracleC08(line, ret string, evs []ev, before, after map[int]*l
 			}
 		}
 	}
+	// dependencies first, read on the whole history (error-free histories only: with a failed flow
+	// "activated" is no longer what the hook log says): a symbol is activated only while every symbol
+	// it references is activated, and a symbol is deactivated only while no symbol that references it
+	// is still activated – also when the dependent is not notified at all in this operation.
+	if !rn.res.hadErr {
+		bal := map[int]int{}
+		for k, v := range balBefore {
+			bal[k] = v
+		}
+		okAfter, okBefore := acyclic(after), acyclic(before)
+		for _, e := range es {
+			switch e.k {
+			case 'L':
+				if okAfter {
+					for t := range after {
+						if t != e.subj && refsLive(after, e.subj, t) && bal[t] != 1 {
+							rn.fail("C08", "deps-first", fmt.Sprintf("%q: symbol %d was activated while %d, which it references, was not activated", line, e.subj, t))
+						}
+					}
+				}
+				bal[e.subj]++
+			case 'U':
+				if okBefore {
+					for s2 := range before {
+						if s2 != e.subj && refsLive(before, s2, e.subj) && bal[s2] != 0 {
+							rn.fail("C08", "deps-first", fmt.Sprintf("%q: symbol %d was deactivated while %d, which references it, was still activated", line, e.subj, s2))
+						}
+					}
+				}
+				bal[e.subj]--
+			}
+		}
+	}
 }
 
 // ------------------------------------------------------------------ driving
@@ -498,7 +544,11 @@ func runLines(c *lib.Ctx, which string, lines []string) *caseResult {
 	for _, l := range lines {
 		f := strings.Fields(l)
 		if len(f) == 2 && f[0] == "mode" {
-			rn.seq = f[1] == "seq"
+			if f[1] == "reuse" {
+				rn.w.reuse = true
+			} else {
+				rn.seq = f[1] == "seq"
+			}
 			rn.res.lines = append(rn.res.lines, l)
 			rn.res.outs = append(rn.res.outs, "ok")
 			continue
@@ -514,6 +564,7 @@ func runLines(c *lib.Ctx, which string, lines []string) *caseResult {
 	for i := range rn.res.fails {
 		rn.res.fails[i].Replay = replayOf(rn.res.lines, rn.res.outs)
 	}
+	rn.c.Hist["object-reinserted"] += rn.w.reused
 	return rn.res
 }
 
@@ -525,12 +576,20 @@ func genCase(c *lib.Ctx, r *lib.RNG, which string) []string {
 		u = genChain(r, c)
 		c.Hit("universe-chain")
 	} else {
-		u = genGeneral(r, c, flavour)
-		c.Hit("universe-general")
+		reuse := r.Chance(map[string]int{"C06": 4, "C07": 1, "C08": 1}[which], 10)
+		u = genGeneral(r, c, flavour, reuse)
+		if reuse {
+			c.Hit("universe-general-reused-objects")
+		} else {
+			c.Hit("universe-general")
+		}
 	}
 	lines := []string{"mode set"}
 	if u.chain {
 		lines[0] = "mode seq"
+	}
+	if u.reuse {
+		lines = append(lines, "mode reuse")
 	}
 	// the generator's own view of what is live (names must stay unique among live symbols)
 	cur := map[int]*live{}
@@ -673,6 +732,7 @@ func RunProp(c *lib.Ctx, which string) {
 	}
 	c.Rule = "each case = one universe (≤5 ids + one never-inserted id, ≤8 symbol versions, 2 namespaces, by-id and by-name references, shared targets, self-references, cycles, dangling references; or a chain universe with responders that may fail) and one history of ≤14 Insert (new/replace/rename) / Free / Close on the real symbol.Table with real nodes; after every op keys, out-port links, the reverse-reference index, the active set and the op's events are compared with Uniflow.Table.step. In universes with failing responders a Close ends the case and, when it fails, only the fact that it failed is compared with the model (what is left depends on map order); the C08 oracle checks on the real log that the returned error is the failing flow's, that nothing runs after it and what is left in the table. Non-trivial: ≥5 lines, a link existed and an unload happened; distinct by the op lines."
 	c.Assumptions = []string{
+		"a *Symbol object that is inserted again after it was freed, replaced or removed by Close behaves like a fresh one (cases of the 'reused objects' universes insert the very same object again; the model's symbols are ids, so it only says what the wiring must be)",
 		"names are unique per namespace among live symbols (generator enforces it; it is what the runtime's unique index gives the table); each port reference has exactly one of id / name; ids are non-nil",
 		"port names are canonical (no use of the alias out == out[0] of OneToManyNode); no spec names the error port",
 		"lifecycle targets answer every packet (harness nodes always answer; a target that never answers blocks exec in Go and is outside the model)",
